@@ -196,7 +196,7 @@ func runResume(c *Case) (obs []CallObs, fatal string) {
 		}()
 		select {
 		case <-done:
-		case <-time.After(20 * time.Second):
+		case <-time.After(45 * time.Second):
 			obs[i] = CallObs{Class: "hang"}
 			return obs, ""
 		}
